@@ -211,6 +211,33 @@ pub fn sys_other<S: Src>(s: &mut S) {
     verdict!("rejected" => ok_err, "quiet" => ok_quiet);
 }
 
+/// Same claim as `sys_other`, with a well-formed one-byte write() argument block at a constant address behind ER1: if a
+/// call number other than 104 / 113 is (mis)taken for write() or set_handler, the effect then happens within the
+/// unwinding bound and on memory a native run has too, so the counterexample can be extracted and replayed
+/// (seed C14c: call number read from the 16-bit register; `sys_other` alone ended in unwinding failures).
+pub fn sys_other_argblock<S: Src>(s: &mut S) {
+    let mut c: Ctx = ih::begin(s, PC_RAM);
+    s.assume(c.code[0] == 0x57 && c.code[1] == 0x00);
+    s.assume(c.cpu.er[0] != 104 && c.cpu.er[0] != 113);
+    c.cpu.er[1] = 0xffe000;
+    let w_len = 1u32.to_be_bytes();
+    let w_fd = 1u32.to_be_bytes();
+    let w_buf = 0xffe100u32.to_be_bytes();
+    let data = [b'A', 0, 0, 0, 0, 0, 0, 0];
+    c.window(0, 0xffe008, &w_len);
+    c.window(2, 0xffe000, &w_fd);
+    c.window(3, 0xffe004, &w_buf);
+    mem::set_window_len(&mut c.cpu, 1, 0xffe100, &data, 1);
+    attach_capture(&mut c.cpu);
+    let r = c.step();
+    collect_capture();
+    let ok_err = r.is_err();
+    let ok_quiet = unsafe { OUT_COUNT } == 0 && !mem::stray_write_only(&c.cpu);
+    witness!(c.pre.er[0] == 0x0001_0068, "call number H'10068");
+    std::mem::forget(c);
+    verdict!("rejected" => ok_err, "quiet" => ok_quiet);
+}
+
 /// Probe (not registered under any property): does a read through the footprint stub at a constant
 /// address of a window with constant contents fold to a constant during symbolic execution?
 pub fn probe_fold<S: Src>(s: &mut S) {
